@@ -252,6 +252,31 @@ pub fn show<T: PurlShape>(p: &GenericPurl<T>) -> Out<String> {
     guard("GenericPurl::to_string", || p.to_string())
 }
 
+/// The same value formatted with width, fill, alignment, precision and the alternate flag.
+/// A `Display` may ignore these, pad the whole text, or cut it at the precision; it may not
+/// apply them to a part of the text. Returns the first offending (format spec, output).
+pub fn show_with_flags<T: PurlShape>(p: &GenericPurl<T>, plain: &str) -> Out<Option<(&'static str, String)>> {
+    guard("format!(\"{:...}\", purl)", || {
+        let n = plain.chars().count();
+        let outs: [(&'static str, String, char); 7] = [
+            ("{:<W}", format!("{:<w$}", p, w = n + 7), ' '),
+            ("{:>W}", format!("{:>w$}", p, w = n + 7), ' '),
+            ("{:*^W}", format!("{:*^w$}", p, w = n + 8), '*'),
+            ("{:W}", format!("{:w$}", p, w = n + 3), ' '),
+            ("{:12}", format!("{:12}", p), ' '),
+            ("{:#}", format!("{:#}", p), ' '),
+            ("{:.2}", format!("{:.2}", p), ' '),
+        ];
+        for (spec, o, fill) in outs {
+            let ok = o == plain || o.trim_matches(fill) == plain.trim_matches(fill) || (spec == "{:.2}" && plain.starts_with(o.as_str()));
+            if !ok {
+                return Some((spec, o));
+            }
+        }
+        None
+    })
+}
+
 // ---------------------------------------------------------------------------------------------
 // Per-worker statistics
 
